@@ -357,6 +357,7 @@ class Interp:
         self.scalar_aug = []  # (name, birth depth, loops, node) for every augmented assignment to a plain name
         self.skip_if = set(self.hooks.get("skip_if", ()))
         self.seen_param_ifs = []
+        self.seen_sign_ifs = []
         self.inline = self.hooks.get("inline", {})
         self.opaque_calls = self.hooks.get("opaque_calls", {})
 
@@ -455,6 +456,24 @@ class Interp:
                     return
                 self.block(st.body)
                 return
+        # `if <param> > 0:` / `< 0` (either strictness): a guard on the SIGN of a kernel parameter.  The body is taken; the
+        # caller re-runs with hook "skip_sign" to obtain the value on the other half-line (the kernel is analytic in the
+        # parameter, so the two values must be the same expression)
+        if (
+            isinstance(t, ast.Compare)
+            and len(t.ops) == 1
+            and isinstance(t.ops[0], (ast.Gt, ast.Lt, ast.GtE, ast.LtE))
+            and isinstance(t.comparators[0], ast.Constant)
+            and t.comparators[0].value == 0
+            and "skip_sign" in self.hooks
+        ):
+            v = self.ev(t.left)
+            if isinstance(v, V):
+                ats = sorted(v.atoms())
+                if len(ats) == 1 and v.eq(V.atom(ats[0])):
+                    self.seen_sign_ifs.append((ats[0], unparse_test(t)))
+                    self.block(st.orelse if self.hooks["skip_sign"] else st.body)
+                    return
         h = self.hooks.get("if")
         if h is not None:
             r = h(self, st)
@@ -1464,6 +1483,10 @@ def describe(a):
     if isinstance(a, (list, tuple)):
         return "[%s]" % ",".join(describe(x) for x in a)
     return repr(a)
+
+
+def unparse_test(t):
+    return ast.unparse(t)
 
 
 def _short(node):
